@@ -462,8 +462,12 @@ fn prop(c: &Case) -> Verdict {
                 "find-below-file-is-error"
             } else if rule == 6 {
                 "find-remote-head-packed"
-            } else if rule >= 2 && (looks_full(&q) || q == b"refs" || q == b"main-worktree" || q == b"worktrees") {
-                // mirrors Coq's known_fullname_fallback: the name, or its join with /HEAD, looks like a full name
+            } else if (rule >= 2 && (q.starts_with(b"refs/") || q.starts_with(b"main-worktree/") || q.starts_with(b"worktrees/")))
+                || (rule == 2 && is_pseudo(&q))
+                || (rule == 6 && (q == b"refs" || q == b"main-worktree" || q == b"worktrees"))
+            {
+                // inside Coq's known_fullname_fallback: the name, or its join with /HEAD, looks like a full name,
+                // and the rule that hits for git is one gix-ref forms differently
                 "find-fullname-fallback"
             } else {
                 "find-mismatch"
